@@ -1,4 +1,5 @@
 import importlib
+import importlib.util
 import pathlib
 import sys
 import warnings
@@ -41,8 +42,14 @@ def load_model_from_file(path, register=False):
     sys.path.insert(pos, path_entry)
     sys.dont_write_bytecode = True
     try:
-        module = importlib.import_module(path.stem)
-    except ModuleNotFoundError:
+        # Import this very file (and not a module of the same name that
+        # happens to be importable or cached in `sys.modules`).
+        spec = importlib.util.spec_from_file_location(path.stem, path)
+        if spec is None:
+            raise ModelImportError(f"Could not import '{path}'!")
+        module = importlib.util.module_from_spec(spec)
+        spec.loader.exec_module(module)
+    except (ModuleNotFoundError, FileNotFoundError):
         raise ModelImportError(f"Could not import '{path}'!")
     finally:
         # undo our path insertion (and only ours)
